@@ -102,19 +102,43 @@ Theorem C18_emitted_ids_are_keyid : forall sha1,
 Proof. exact emitted_ids_are_keyid. Qed.
 Print Assumptions C18_emitted_ids_are_keyid.
 
-(* ---- outside the premises (kept visible) ---- *)
-(* algorithm ids PGPy has no material class for (0, 21): publen() is 0, six octets are hashed, the value is
-   NOT the RFC fingerprint (witness with the identity in place of SHA-1) ... *)
-Theorem C18_fp_opaque_refuted :
-  fingerprint (fun x => x) opaque_witness <> rfc_fingerprint (fun x => x) (pub_packet_body opaque_witness).
-Proof. exact fp_opaque_refuted. Qed.
-(* ... and this is all that is hashed for such a key, for every content *)
-Theorem C18_fp_opaque_characterised : forall c a d s sub,
+(* ---- algorithm ids PGPy has no material class for (0, 21: OpaquePubKey / OpaquePrivKey) ---- *)
+(* after repair e03112d a PUBLIC key of such an algorithm gets the RFC fingerprint of its body, and that body is
+   the RFC 5.5.2 body (version, time, algorithm, the opaque octets) *)
+Theorem C18_fp_opaque_public_eq_rfc : forall sha1 sub c a d,
+  0 <= c < 4294967296 -> 0 <= a < 256 -> 6 + Z.of_nat (length d) < 65536 ->
+  fingerprint sha1 (opaque_pub sub c a d) = rfc_fingerprint sha1 (key_body (opaque_pub sub c a d)) /\
+  key_body (opaque_pub sub c a d) = rfc_pub_body c a (POpaque d).
+Proof. exact fp_opaque_public_eq_rfc. Qed.
+Print Assumptions C18_fp_opaque_public_eq_rfc.
+(* the code BEFORE the repair (publen() = 0) is refuted: six octets were hashed, not the RFC value
+   (witness with the identity in place of SHA-1), for every content *)
+Theorem C18_fp_opaque_prefix_refuted :
+  fingerprint_prefix (fun x => x) opaque_witness <> rfc_fingerprint (fun x => x) (key_body opaque_witness).
+Proof. exact fp_opaque_prefix_refuted. Qed.
+Theorem C18_fp_opaque_prefix_characterised : forall c a d s sub,
   0 <= c < 4294967296 -> 0 <= a < 256 ->
-  fp_input {| k_sub := sub; k_created := c; k_alg := a; k_mat := POpaque d; k_sec := s |}
+  fp_input_prefix {| k_sub := sub; k_created := c; k_alg := a; k_mat := POpaque d; k_sec := s |}
   = [153; 0; 6; 4] ++ be 4 c ++ [a].
-Proof. exact fp_opaque_characterised. Qed.
-Print Assumptions C18_fp_opaque_characterised.
+Proof. exact fp_opaque_prefix_characterised. Qed.
+Print Assumptions C18_fp_opaque_prefix_characterised.
+(* the repair changed nothing for the supported algorithms *)
+Theorem C18_fp_prefix_same_supported : forall k, wf_pubmat (k_mat k) -> fp_input_prefix k = fp_input k.
+Proof. exact fp_prefix_same_supported. Qed.
+Print Assumptions C18_fp_prefix_same_supported.
+(* STILL outside the property: a PRIVATE key of an unknown algorithm.  Its `data` is the whole stored material
+   (the public/secret boundary is unknown), all of it is hashed, PrivKeyV4.pubkey() yields a twin with EMPTY
+   material whose fingerprint covers six octets, and re-emission appends an S2K usage octet *)
+Theorem C18_fp_opaque_private_characterised : forall sub c a d sp,
+  0 <= c < 4294967296 -> 0 <= a < 256 -> 6 + Z.of_nat (length d) < 65536 ->
+  fp_input (opaque_sec sub c a d sp) = [153] ++ be 2 (6 + Z.of_nat (length d)) ++ [4] ++ be 4 c ++ [a] ++ d /\
+  fp_input (pubkey_pkt (opaque_sec sub c a d sp)) = [153; 0; 6; 4] ++ be 4 c ++ [a].
+Proof. exact fp_opaque_private_characterised. Qed.
+Print Assumptions C18_fp_opaque_private_characterised.
+Theorem C18_fp_opaque_private_refuted :
+  fingerprint (fun x => x) opaque_sec_witness <> fingerprint (fun x => x) (pubkey_pkt opaque_sec_witness) /\
+  key_body opaque_sec_witness <> [4] ++ be 4 1000 ++ [21] ++ [0; 9; 1; 255; 0; 0; 7; 99].
+Proof. exact fp_opaque_private_refuted. Qed.
 (* above 65535 octets the code hashes the first and last of three length octets (no RFC value exists there) *)
 Theorem C18_fp_length_prefix_above_bound : forall v, 65536 <= v < 16777216 ->
   firstn 1 (int_to_bytes v 2) ++ lastn 1 (int_to_bytes v 2) = [v / 65536; v mod 256].
